@@ -348,6 +348,9 @@ def _fill_in_default_arguments(
     if has_receiver and len(params) > 0 and not inspect.ismethod(func):
         params = params[1:]
     for param in params:
+        if param.kind in (param.VAR_POSITIONAL, param.VAR_KEYWORD):
+            # `*args` and `**kwargs` take whatever is left over: nothing to fill in
+            continue
         if len(arg_array) <= i_arg:
             # See if they specified it as a keyword
             a, keywords = _find_keyword(keywords, param.name)
@@ -670,8 +673,15 @@ def remap_by_types(
             return_results: List[_MethodTypeReturnInfo] = []
             for base_obj in base_obj_list:
                 # Do basic static analysis without doing any call backs.
+                # A static method has no receiver among its parameters
+                is_static = isinstance(
+                    inspect.getattr_static(
+                        base_obj.method_class, getattr(base_obj.method, "__name__", ""), None
+                    ),
+                    staticmethod,
+                )
                 default_args_node, return_annotation_raw = _fill_in_default_arguments(
-                    base_obj.method, r_node, has_receiver=True
+                    base_obj.method, r_node, has_receiver=not is_static
                 )
                 return_annotation = resolve_type_vars(
                     return_annotation_raw, base_obj.obj_type, at_class=base_obj.method_class
